@@ -1,7 +1,173 @@
-(* C41 - replay spills and stream chunking deliver every batch exactly once. (theorems follow) *)
-From LanceV Require Import Common.Base Io.Model_Chunker Io.Model_Spill.
+(* C41 - replay spills and stream chunking deliver every batch exactly once.  Property theorems only.
 
+   Chunker (rust/lance-datafusion/src/chunker.rs).  Batches are lists of opaque rows; the inner stream
+   is any finite list of Ok(batch) / Err items.  [ovals out] are the Ok items of the output stream,
+   [oerrs out] the number of Err items, [no_fuel out]: the model's loop bound was not hit.
+   Spill (spill.rs).  A schedule is any list of sender calls (write / finish / send_error / drop) and
+   reader events (open a reader, poll reader k), reader events also while a write/finish awaits I/O;
+   [written] / [delivered k] are read off the observable trace. *)
+From LanceV Require Import Common.Base Io.Model_Chunker Io.Proofs_Chunker Io.Model_Spill Io.Proofs_Spill.
+
+(* ---------------------------------------------------------------- chunking *)
+
+(* [exact_chunks n R flat] (Io/Model_Chunker.v) is what "re-sliced into chunks of exactly n rows except
+   the last, none empty, nothing lost" means for output chunks [flat] (each flattened to its rows) of
+   the data [R]:
+     concat flat = R /\ Forall (fun c => c <> [] /\ length c <= n) flat /\
+     (forall pre c post, flat = pre ++ c :: post -> post <> [] -> length c = n). *)
+
+(* chunk_stream: for EVERY inner stream and every chunk size n > 0 the stream never panics, passes
+   the Err items through, and its chunks (each a Vec of zero-copy slices, none of them empty) have
+   exactly n rows except possibly the last, are non-empty, and concatenate to the input rows *)
+Theorem C41_chunks : forall (A : Type) (n : nat) (inner : list (item A)), 0 < n ->
+  exists out, chunk_stream n inner = Ok out /\ no_fuel out /\ oerrs out = ierrs inner /\
+    exact_chunks n (concat (oks inner)) (map (@concat A) (ovals out)) /\
+    Forall (Forall (fun piece => piece <> [])) (ovals out).
+Proof.
+  intros A n inner Hn. destruct (chunk_stream_correct n inner Hn) as (out & Ho & Hnf & Hch & HF & He).
+  exists out. repeat split; try assumption; apply (chunks_of_exact_chunks n _ _ Hn Hch).
+Qed.
+Print Assumptions C41_chunks.
+
+Theorem C41_chunk_concat : forall (A : Type) (n : nat) (inner : list (item A)), 0 < n ->
+  exists out, chunk_concat_stream n inner = Ok out /\ no_fuel out /\ oerrs out = ierrs inner /\
+    exact_chunks n (concat (oks inner)) (ovals out).
+Proof.
+  intros A n inner Hn. destruct (chunk_concat_stream_correct n inner Hn) as (out & Ho & Hnf & Hch & He).
+  exists out. repeat split; try assumption; apply (chunks_of_exact_chunks n _ _ Hn Hch).
+Qed.
+Print Assumptions C41_chunk_concat.
+
+Theorem C41_strict_batch_size : forall (A : Type) (n : nat) (inner : list (item A)), 0 < n ->
+  exists out, strict_stream n inner = Ok out /\ no_fuel out /\ oerrs out = ierrs inner /\
+    exact_chunks n (concat (oks inner)) (ovals out).
+Proof.
+  intros A n inner Hn. destruct (strict_stream_correct n inner Hn) as (out & Ho & Hnf & Hch & He).
+  exists out. repeat split; try assumption; apply (chunks_of_exact_chunks n _ _ Hn Hch).
+Qed.
+Print Assumptions C41_strict_batch_size.
+
+(* break_stream: nothing lost or reordered, no empty batch, no output batch crosses a multiple of
+   max, and every multiple of max (up to the total) is a boundary between output batches *)
+Theorem C41_break_stream : forall (A : Type) (max : nat) (inner : list (item A)), 0 < max ->
+  exists out, break_stream max inner = Ok out /\ no_fuel out /\ oerrs out = ierrs inner /\
+    concat (ovals out) = concat (oks inner) /\
+    (forall pre p post, ovals out = pre ++ p :: post ->
+       p <> [] /\ length (concat pre) mod max + length p <= max) /\
+    (forall k, k * max <= length (concat (ovals out)) ->
+       exists pre post, ovals out = pre ++ post /\ length (concat pre) = k * max).
+Proof. intros A max inner H. exact (break_stream_flat max inner H). Qed.
+Print Assumptions C41_break_stream.
+
+(* break_stream never combines batches: the output is, input batch by input batch, a cut of that
+   batch ([groups_ok]: pieces non-empty, inside one max-window, every piece but the last of a batch
+   ending on a multiple of max - so it cuts only where it must) *)
+Theorem C41_break_stream_refines : forall (A : Type) (max : nat) (inner : list (item A)), 0 < max ->
+  exists out groups, break_stream max inner = Ok out /\ ovals out = concat groups /\
+    Forall2 (fun g b => concat g = b) groups (oks inner) /\ groups_ok max 0 groups.
+Proof.
+  intros A max inner H. destruct (break_stream_correct max inner H) as (out & groups & Ho & _ & _ & Hv & HF & Hg).
+  exists out, groups. repeat split; assumption.
+Qed.
+Print Assumptions C41_break_stream_refines.
+
+(* outside the domain n > 0 (confirmed on the real code by the correspondence cases with size 0):
+   chunk_stream with size 0 yields an empty stream whatever the input; break_stream panics *)
+Definition Known_C41_size_zero (n : nat) : bool := n =? 0.
+Theorem C41_size_zero_refuted :
+  exists (n : nat) (inner : list (item N)), Known_C41_size_zero n = true /\
+    chunk_stream n inner = Ok [] /\ concat (oks inner) <> [] /\ break_stream n inner = Panic.
+Proof. exists 0, [IBatch [1%N; 2%N]]. repeat split. discriminate. Qed.
+Print Assumptions C41_size_zero_refuted.
+
+(* ---------------------------------------------------------------- replay spill *)
+Section Replay.
+Context {B : Type}.
+Variable ipc : B -> B.
+Hypothesis ipc_roundtrip : forall b, ipc b = b.
+
+(* safety, for EVERY schedule (errors and drops included), memory limit and accumulator totals:
+   what reader k has been given is exactly the first [batches_read] written batches *)
+Theorem C41_replay_prefix : forall (limit : N) (es : list (event B)) (k : nat),
+  let '(st, os) := run ipc (init limit) es in
+  delivered k es os = firstn (nread st k) (written es os) /\ nread st k <= length (written es os).
+Proof. exact (replay_prefix ipc ipc_roundtrip). Qed.
+
+(* the published flags are the trace's: error iff send_error was executed, finished iff finish
+   returned Ok or an error was sent *)
+Theorem C41_replay_status : forall (limit : N) (es : list (event B)),
+  let '(st, os) := run ipc (init limit) es in
+  ws_error (sp_status st) = existsb is_sent os /\
+  ws_finished (sp_status st) = existsb is_finish_ok os || existsb is_sent os.
+Proof. exact (status_flags ipc). Qed.
+
+(* progress, in any reachable state without a sent error: a live reader's next poll yields the next
+   written batch if there is one; otherwise the end of the stream iff the spill is finished, else it
+   waits (or reports the dropped sender) - it never skips, repeats, ends early or fails *)
+Theorem C41_replay_poll : forall (limit : N) (es : list (event B)),
+  let '(st, os) := run ipc (init limit) es in
+  forall k r, nth_error (sp_readers st) k = Some r -> rd_done r = false -> ws_error (sp_status st) = false ->
+    fst (reader_read ipc st r) =
+      match nth_error (written es os) (rd_read r) with
+      | Some b => OBatch b
+      | None => if ws_finished (sp_status st) then OEnd
+                else if sp_alive st then OPending else OErrR REDropped
+      end.
+Proof. exact (replay_poll ipc ipc_roundtrip). Qed.
+
+(* a reader opened after ANY history in which finish succeeded and no error was sent sees exactly
+   the written sequence and then the end - wherever the data ended up (memory or disk) *)
+Theorem C41_replay_new_reader : forall (limit : N) (es : list (event B)),
+  let '(st, os) := run ipc (init limit) es in
+  existsb is_finish_ok os = true -> existsb is_sent os = false ->
+  snd (run ipc st (ERead ROpen :: repeat (ERead (RPoll (length (sp_readers st)))) (S (length (written es os))))) =
+    ORead OOpened :: map (fun b => ORead (OBatch b)) (written es os) ++ [ORead OEnd].
+Proof. exact (replay_new_reader ipc ipc_roundtrip). Qed.
+End Replay.
+Print Assumptions C41_replay_prefix.
+Print Assumptions C41_replay_status.
+Print Assumptions C41_replay_poll.
+Print Assumptions C41_replay_new_reader.
+
+(* ---------------------------------------------------------------- non-vacuity / model runs *)
+(* the Rust unit test test_chunkers *)
 Example C41_unit_test_chunkers :
+  chk_chunk_stream (10%N, ut_batches)
+    (Ok [Some [[0;1;2;3;4;5;6;7;8;9]]; Some [[0;1;2;3;4]; [0;1;2;3;4]]; Some [[5;6;7;8;9;10;11;12]]])%N = true /\
   chk_break_stream (10%N, ut_batches)
-    (Ok [Some [0;1;2;3;4;5;6;7;8;9]%N; Some [0;1;2;3;4]%N; Some [0;1;2;3;4]%N; Some [5;6;7;8;9;10;11;12]%N]) = true.
-Proof. reflexivity. Qed.
+    (Ok [Some [0;1;2;3;4;5;6;7;8;9]; Some [0;1;2;3;4]; Some [0;1;2;3;4]; Some [5;6;7;8;9;10;11;12]])%N = true /\
+  chk_strict_stream (10%N, ut_batches)
+    (Ok [Some [0;1;2;3;4;5;6;7;8;9]; Some [0;1;2;3;4;0;1;2;3;4]; Some [5;6;7;8;9;10;11;12]])%N = true.
+Proof. repeat split; vm_compute; reflexivity. Qed.
+
+(* exhaustive small universe: every stream of <= 3 items over {Err, batches of 0..3 rows}, sizes 1..3:
+   the flattened outputs of all four functions carry the input rows (a test, not the theorem) *)
+Definition small_items : list (item N) := [IErr; IBatch []; IBatch [1]; IBatch [1;2]; IBatch [1;2;3]]%N.
+Definition small_streams : list (list (item N)) :=
+  [[]] ++ map (fun a => [a]) small_items
+  ++ flat_map (fun a => map (fun b => [a; b]) small_items) small_items
+  ++ flat_map (fun a => flat_map (fun b => map (fun c => [a; b; c]) small_items) small_items) small_items.
+Definition rows_kept (n : nat) (inner : list (item N)) : bool :=
+  let want := concat (oks inner) in
+  let same (l : list N) := list_eqb N.eqb l want in
+  match chunk_stream n inner, chunk_concat_stream n inner, break_stream n inner, strict_stream n inner with
+  | Ok a, Ok b, Ok c, Ok d =>
+      same (concat (concat (ovals a))) && same (concat (ovals b)) && same (concat (ovals c)) && same (concat (ovals d))
+  | _, _, _, _ => false
+  end.
+Example C41_small_universe :
+  forallb (fun n => forallb (rows_kept n) small_streams) [1; 2; 3] = true.
+Proof. vm_compute. reflexivity. Qed.
+
+(* the Rust unit test test_spill (memory limit 0: spills on the first write), with a poll while the
+   second write awaits its file I/O *)
+Example C41_unit_test_spill :
+  snd (run (fun b => b) (init 0)
+     [ERead ROpen; ERead (RPoll 0); EWrite [1;2;3]%N 12 []; ERead (RPoll 0); ERead (RPoll 0);
+      ERead ROpen; ERead (RPoll 1); EWrite [4;5;6]%N 24 [RPoll 0]; EFinish [RPoll 1];
+      ERead (RPoll 0); ERead (RPoll 0); ERead (RPoll 1); ERead ROpen; ERead (RPoll 2); ERead (RPoll 2); ERead (RPoll 2)])
+  = [ORead OOpened; ORead OPending; OWrite SOk true []; ORead (OBatch [1;2;3]%N); ORead OPending;
+     ORead OOpened; ORead (OBatch [1;2;3]%N); OWrite SOk true [OPending]; OFinish SOk [OBatch [4;5;6]%N];
+     ORead (OBatch [4;5;6]%N); ORead OEnd; ORead OEnd; ORead OOpened;
+     ORead (OBatch [1;2;3]%N); ORead (OBatch [4;5;6]%N); ORead OEnd].
+Proof. vm_compute. reflexivity. Qed.
